@@ -1,6 +1,8 @@
 SPECIFICATION Spec
 CONSTANTS
   Leaves <- LvQuick
+  ULeaves = {}
+  Bigs = {}
   UnOps = {"+", "-", "~", "!"}
   Casts = {"int", "bool", "char"}
   BinOps = {"*", "/", "%", "+", "-", "<<", ">>", "<", ">", "<=", ">=", "==", "!=", "&", "^", "|", "&&", "||"}
@@ -13,6 +15,7 @@ INVARIANT ShiftLaw
 INVARIANT BitLaw
 INVARIANT BoolLaw
 INVARIANT AddLaw
+INVARIANT TypeLaw
 INVARIANT RenderLaw
 CONSTRAINT DumpConstraint
 CHECK_DEADLOCK FALSE
